@@ -159,6 +159,9 @@ func (e *Enc) writesOfCall(cc *ssa.CallCommon, seen map[*ssa.Function]bool) (map
 		return out, false
 	}
 	if spec, ok := e.P.Specs[name]; ok && (fn == nil || len(fn.Blocks) == 0 || spec.Trusted || spec.Verify || spec.NoInline) {
+		if spec.ModifiesAll {
+			return out, true
+		}
 		mods, err := e.P.expandHeaps(spec.Modifies)
 		if err != nil {
 			return out, true
@@ -516,6 +519,19 @@ func (e *Enc) enterLoop(fr *Frame, b *ssa.BasicBlock, hdr *loopHdr, in *State, b
 	}
 	// 2. havoc
 	writes, all := e.writesOfBlocks(fr.Fn, hdr.body, map[*ssa.Function]bool{fr.Fn: true})
+	star := all
+	for _, m := range loopMods {
+		if strings.TrimSpace(m) == "*" {
+			star = true
+		}
+	}
+	if star {
+		// the body calls something that may write any heap ("modifies *", or a callee with an unknown write set): every
+		// heap, touched so far or not, is unconstrained at the loop head; only the stated invariants survive
+		e.havocAll(in, fr)
+		writes, all, loopMods = map[string]bool{}, false, nil
+		e.note("loop %d of %s: every heap havocked at the loop head (the body may write any heap)", ord, fnName(fr.Fn))
+	}
 	if len(loopMods) > 0 {
 		mods, err := e.P.expandHeaps(loopMods)
 		if err != nil {
@@ -815,6 +831,18 @@ func VerifyFunc(p *Program, fn *ssa.Function, prop string) (res *FuncResult) {
 			reqs = append(reqs, t)
 			e.assume(st, t)
 		}
+		for _, r := range spec.Assumes {
+			if !e.active(r.Props) {
+				continue
+			}
+			t, err := env.EvalBool(r.Expr)
+			if err != nil {
+				unsupported("assume %s: %v", r.Label, err)
+			}
+			reqs = append(reqs, t)
+			e.assume(st, t)
+			e.note("ASSUMED, unchecked, at entry of %s: %s: %s", name, r.Label, r.Src)
+		}
 		for _, r := range spec.Invariants {
 			if !e.active(r.Props) {
 				continue
@@ -905,6 +933,10 @@ func VerifyFunc(p *Program, fn *ssa.Function, prop string) (res *FuncResult) {
 		}
 		for _, en := range spec.Ensures {
 			if !e.active(en.Props) {
+				continue
+			}
+			if en.Assumed {
+				e.note("ASSUMED, unchecked, postcondition of %s exported to its callers: %s: %s", name, en.Label, en.Src)
 				continue
 			}
 			t, err := env.EvalBool(en.Expr)
